@@ -45,6 +45,15 @@ def gen(ctx):
         t = rand_string(rng, L=L)
         yield dict(kind="J", x=s, y=t)
         yield dict(kind="MI", x=s, y=rng.choice([t, s, s[::-1]]))
+    for L in ([257, 1000] if ctx.tier == "quick" else [255, 256, 257, 1000, 2000]):
+        s1 = rand_string(rng, L=L, k=rng.choice([1, 2, 3, 40]))
+        s2 = rand_string(rng, L=L, k=rng.choice([2, 3]))
+        yield dict(kind="H", s=s1)
+        yield dict(kind="J", x=s1, y=s2)
+        yield dict(kind="MI", x=s1, y=s2)
+        ca = [[rng.choice([0, 1, 2]) for _ in range(3)] for _ in range(L)]
+        yield dict(kind="ace", ca=ca, dtype="int64")
+        yield dict(kind="ami", ca=ca, d=rng.choice([1, L // 2, L - 1]), dtype="int64")
     for _ in range(ctx.n(120, 1200)):
         # two cells with different state sequences but the same concatenated printed form
         # (e.g. 1,1,10 vs 11,1,0 ; -1,1 vs -11 ; 1,0 vs 10): states must be symbols, not character streams
